@@ -253,24 +253,24 @@ func runC19(tier string) int {
 	wall := since(start)
 	ev := &evidence{PropertyID: "C19", Tier: tier, Seed: int64(seed), Level: "exploration", WallS: wall, Violations: len(rep.fresh),
 		Coverage: map[string]any{
-			"evaluations":         runs,
-			"distinct_nontrivial": nontrivial,
-			"rule":                "one evaluation = one in-process run of the real pigeon main() under one seeded map-iteration order; each (grammar, flags) input is run under " + fmt.Sprint(p.orders) + " orders x 2 sessions (different predecessor builds in the same process) x 2 immediate repeats and all runs must produce identical exit status, stdout, stderr and output file; distinct_nontrivial = distinct (grammar text, flags) inputs for which at least one permuted range over a map with >= 2 keys was executed",
-			"samples":             samples,
-			"inputs":              len(ins),
-			"inputs_by_class_and_verdict": outcomesByClass,
-			"sessions":            len(sessions),
+			"evaluations":                         runs,
+			"distinct_nontrivial":                 nontrivial,
+			"rule":                                "one evaluation = one in-process run of the real pigeon main() under one seeded map-iteration order; each (grammar, flags) input is run under " + fmt.Sprint(p.orders) + " orders x 2 sessions (different predecessor builds in the same process) x 2 immediate repeats and all runs must produce identical exit status, stdout, stderr and output file; distinct_nontrivial = distinct (grammar text, flags) inputs for which at least one permuted range over a map with >= 2 keys was executed",
+			"samples":                             samples,
+			"inputs":                              len(ins),
+			"inputs_by_class_and_verdict":         outcomesByClass,
+			"sessions":                            len(sessions),
 			"runs_with_permuted_range_2plus_keys": permuted2,
 			"runs_with_permuted_range_3plus_keys": permuted3,
-			"map_range_sites":     sites,
-			"distinct_behaviours": len(distinctBehaviours),
-			"hangs":               hangs,
-			"runs_per_hour":       perHour(runs, wall),
-			"simulated_time":      "no clock in pigeon; logical time only (one run = one complete generation)",
-			"fault_kinds":         map[string]int{"map_order_permutation": permuted2, "in_process_predecessor_builds": len(all) * 2},
-			"inputs_with_divergent_runs": violations,
-			"known_findings_seen": rep.known,
-			"components":          map[string]any{"real": []string{"main.go", "pigeon.go (front-end)", "ast (optimizer)", "builder (left-recursion analysis, code generation)", "golang.org/x/tools/imports"}, "stub": []string{"os files/streams/exit (simos)", "map iteration order (simmap)"}},
+			"map_range_sites":                     sites,
+			"distinct_behaviours":                 len(distinctBehaviours),
+			"hangs":                               hangs,
+			"runs_per_hour":                       perHour(runs, wall),
+			"simulated_time":                      "no clock in pigeon; logical time only (one run = one complete generation)",
+			"fault_kinds":                         map[string]int{"map_order_permutation": permuted2, "in_process_predecessor_builds": len(all) * 2},
+			"inputs_with_divergent_runs":          violations,
+			"known_findings_seen":                 rep.known,
+			"components":                          map[string]any{"real": []string{"main.go", "pigeon.go (front-end)", "ast (optimizer)", "builder (left-recursion analysis, code generation)", "golang.org/x/tools/imports"}, "stub": []string{"os files/streams/exit (simos)", "map iteration order (simmap)"}},
 		},
 		Assumptions: []string{"map iteration order is the only nondeterminism inside one generation (no time, randomness, goroutines or environment reads in main/ast/builder: checked by grep at design time)", "orders are sampled, not enumerated", "goimports (linked unmodified) is deterministic for a fixed module cache"},
 	}
